@@ -23,6 +23,9 @@ type EnumSpec struct {
 	Eval  func(v []int) (clause, detail string, nontrivial bool) // runs one case; clause "" = holds
 	// OutcomeOf (optional) classifies the observed behaviour for the distinct-outcome count
 	Sample int64 // record a sample every n cases (0 = 2000)
+	// Seqs: groups of features that form a sequence (trailing elements neutral); the minimiser
+	// may delete an element by shifting the later ones left
+	Seqs [][]string
 }
 
 type EnumCase struct {
@@ -64,11 +67,36 @@ func (s *EnumSpec) sig(clause string, v []int) string {
 	return clause + "|" + strings.Join(parts, ",")
 }
 
-// minimise: greedy 1-minimal vector that still violates the same clause.
+// minimise: greedy 1-minimal vector that still violates the property (any clause: a root cause
+// often surfaces under different clauses depending on the other features; the signature uses the
+// clause of the minimal vector, and every other cause has its own minimal vector in the product).
 func (s *EnumSpec) minimise(v []int, clause string) []int {
 	cur := append([]int(nil), v...)
 	for changed := true; changed; {
 		changed = false
+		for _, grp := range s.Seqs {
+			for gi := 0; gi < len(grp); gi++ {
+				if cur[s.idx(grp[gi])] == 0 {
+					continue
+				}
+				t := append([]int(nil), cur...)
+				for k := gi; k < len(grp); k++ {
+					if k+1 < len(grp) {
+						t[s.idx(grp[k])] = cur[s.idx(grp[k+1])]
+					} else {
+						t[s.idx(grp[k])] = 0
+					}
+				}
+				if s.Valid != nil && !s.Valid(t) {
+					continue
+				}
+				if cl, _, _ := s.Eval(t); cl != "" {
+					cur = t
+					changed = true
+					gi--
+				}
+			}
+		}
 		for i := range cur {
 			if cur[i] == 0 {
 				continue
@@ -78,7 +106,7 @@ func (s *EnumSpec) minimise(v []int, clause string) []int {
 			if s.Valid != nil && !s.Valid(t) {
 				continue
 			}
-			if cl, _, _ := s.Eval(t); cl == clause {
+			if cl, _, _ := s.Eval(t); cl != "" {
 				cur = t
 				changed = true
 			}
@@ -155,9 +183,6 @@ func (s *EnumSpec) attribute(c *Ctx, v []int, cl, detail string, mins *[]enumMin
 		var hit *enumMin
 		for i := range *mins {
 			m := &(*mins)[i]
-			if m.clause != cl {
-				continue
-			}
 			sup := true
 			for j := range m.mv {
 				if m.mv[j] != 0 && cur[j] != m.mv[j] {
@@ -182,23 +207,23 @@ func (s *EnumSpec) attribute(c *Ctx, v []int, cl, detail string, mins *[]enumMin
 			}
 		}
 		if !any || (s.Valid != nil && !s.Valid(t)) {
-			c.Violate(hit.sig, cl, detail, s.caseOf(hit.mv))
+			c.Violate(hit.sig, hit.clause, detail, s.caseOf(hit.mv))
 			return
 		}
-		if cl2, _, _ := s.Eval(t); cl2 != cl {
-			c.Violate(hit.sig, cl, detail, s.caseOf(hit.mv))
+		if cl2, _, _ := s.Eval(t); cl2 == "" {
+			c.Violate(hit.sig, hit.clause, detail, s.caseOf(hit.mv))
 			return
 		}
 		cur = t // still failing without that cause: look for another one
 	}
 	mv := s.minimise(cur, cl)
-	sg := s.sig(cl, mv)
-	_, d2, _ := s.Eval(mv)
-	if d2 == "" {
-		d2 = detail
+	cl2, d2, _ := s.Eval(mv)
+	if cl2 == "" {
+		cl2, d2, mv = cl, detail, cur
 	}
-	*mins = append(*mins, enumMin{cl, mv, sg})
-	c.Violate(sg, cl, d2, s.caseOf(mv))
+	sg := s.sig(cl2, mv)
+	*mins = append(*mins, enumMin{cl2, mv, sg})
+	c.Violate(sg, cl2, d2, s.caseOf(mv))
 }
 
 // Replay re-executes a recorded case.
